@@ -163,6 +163,20 @@ var (
 	allMsgsErr  error
 )
 
+// shippedOrViolation returns the shipped message types; if one of them cannot be handled by the library
+// (Initialize fails) that is reported as a violation of the property being checked, not as a harness failure.
+func shippedOrViolation(rep *vh.Report, t interface{ SkipNow() }) []*msgInfo {
+	all, err := shippedMessages()
+	if err != nil {
+		rep.Violation("msg=shipped what=init", "a message definition of a shipped dialect cannot be handled: "+err.Error(), nil)
+		rep.Eval(1)
+		rep.DistinctN(2)
+		rep.Sample(err.Error())
+		t.SkipNow()
+	}
+	return all
+}
+
 // shippedMessages returns every distinct message struct type of the shipped dialects.
 func shippedMessages() ([]*msgInfo, error) {
 	allMsgsOnce.Do(func() {
